@@ -243,7 +243,7 @@ def execute(cfg, tok, route, via=None):
         # a definition that pickle refuses cleanly has not "survived with different behaviour": outside the quantifier
         o = {"tag": "unpicklable", "w": {"ty": "none", "num": NoNum, "s": ""}, "e": type(e).__name__, "members": []}
         return {"cfg": cfg, "tok": tok, "route": route, "a": o, "f": o, "p": o, "frame": 1, "msg": 1, "sh": proj(None),
-                "via": via, "skip": 1}
+                "via": via or "", "skip": 1}
     v = w["toks"][tok]
     loose = is_loose(cfg) and not isinstance(v, str)
     strlen = cfg["t"] == "String"
@@ -304,7 +304,7 @@ def execute(cfg, tok, route, via=None):
             warnings.simplefilter("ignore")
             p, _ = outcome(lambda: handler.validate(obj, "x", v), loose, strlen)
     return {"cfg": cfg, "tok": tok, "route": route, "a": a, "f": f, "p": p, "frame": frame, "msg": msg, "sh": sh,
-            "via": via, "skip": 0}
+            "via": via or "", "skip": 0}
 
 
 ROUTES = ["setattr", "ctor", "trait_set", "trait_setq"]
